@@ -70,6 +70,13 @@ func c07(p *core.Prog, r *core.Report) {
 	c07Signals(p, r)
 	c07Admission(p, r)
 	c07Listener(p, r)
+	// the relay's pending count is an input of the drain predicate
+	// (canClose): a count that is not decremented exactly once per finished
+	// relayed call keeps the connection in a closing state forever.
+	r.Rule("C07-R7", "E6 who-may-call/paths", 6, "relay pending count (drain predicate input) is balanced")
+	r.Alias("C09-R3", "C07-R7")
+	c09Pending(p, r)
+	r.Alias("C09-R3", "")
 }
 
 func c07StateMachine(p *core.Prog, r *core.Report, locks *core.Locks, sp stateSpec) {
@@ -590,6 +597,53 @@ func isMoveTo(v ssa.Value, d *core.Domain, want core.Set) bool {
 // ---------------------------------------------------------------------------
 // R4 / R5 admission
 
+// refusalOrder: shared by C07 and C20 (a call reaching a closing peer maps to declined).
+func refusalOrder(p *core.Prog, r *core.Report, rule string) {
+	f := mustFunc(p, r, "", "Connection", "handleCallReq")
+	if f == nil {
+		return
+	}
+	d := p.NewDomain("", "connectionState")
+	active := d.OfName("connectionActive")
+	nonActive := d.Declared() &^ active
+	isSendClosed := func(i ssa.Instruction) bool {
+		c, ok := core.IsCall(i, "Connection.SendSystemError")
+		if !ok {
+			return false
+		}
+		args := core.CallArgs(c)
+		return len(args) == 4 && loadsGlobal(args[3], "ErrChannelClosed")
+	}
+		// the refusal frame goes out before anything that can re-evaluate the
+		// close state: once the last exchange is removed the connection may
+		// close and SendSystemError on a closed connection drops the frame.
+		if ce := p.Func("", "Connection", "checkExchanges"); ce != nil {
+			closers := p.CallersClosureWithin(map[*ssa.Function]bool{ce: true}, p.InAnalysed)
+			for k, rs := range core.CallsIn(f, "Connection.readState") {
+				fl := hypFlow(p, d, f, map[ssa.Value]core.Set{rs.Value(): nonActive})
+				res := core.ReachAvoiding(f, rs, func(i ssa.Instruction) bool {
+					c, ok := i.(ssa.CallInstruction)
+					if !ok || isSendClosed(i) {
+						return false
+					}
+					if _, isDefer := i.(*ssa.Defer); isDefer {
+						return false
+					}
+					return p.MayCall(c, closers)
+				}, isSendClosed, edgePrune(fl))
+				construct := fmt.Sprintf("refusal after observation #%d precedes any close-state re-evaluation", k+1)
+				if res.Found {
+					r.Fail(rule, fname(f), construct, p.Pos(rs.Pos()),
+						"a call that can remove the last exchange and close the connection runs before the declined frame is sent (the frame is then dropped): "+p.Pos(res.Exit.Pos()))
+				} else {
+					r.Ok(rule, fname(f), construct, p.Pos(rs.Pos()), "no call reaching checkExchanges lies between the observation and SendSystemError(…, ErrChannelClosed)")
+				}
+			}
+		} else {
+			r.Errorf("Connection.checkExchanges does not resolve")
+		}
+}
+
 func c07Admission(p *core.Prog, r *core.Report) {
 	d := p.NewDomain("", "connectionState")
 	active := d.OfName("connectionActive")
@@ -624,6 +678,7 @@ func c07Admission(p *core.Prog, r *core.Report) {
 				r.Ok("C07-R4", fname(f), construct, p.Pos(rs.Pos()), "every path under state!=Active passes SendSystemError(…, ErrChannelClosed) before returning")
 			}
 		}
+		refusalOrder(p, r, "C07-R4")
 		if n < 2 {
 			r.Errorf("handleCallReq: expected the state to be observed before and after registering the exchange, found %d observations", n)
 		} else {
